@@ -44,6 +44,8 @@ type rpf struct {
 	assertHook  func(r *rpf, ta *ast.TypeAssertExpr, v *Val) (holds, claimed bool)
 	curFn       *ast.FuncDecl // the function being folded (bare returns)
 	effectCalls bool          // statement-level calls of repository functions are folded for their effect on fold-local storage
+	deferred    []func()      // deferred calls of module functions (effectCalls folds), run when the folded function returns
+	writeBack   bool          // after the fold, the values of the variables the caller put into env are copied back into the caller's env (modelled package variables that the function assigns)
 	unroll      int           // > 0: plain `for` loops over scalar state are unrolled up to this many iterations (constant propagation with bounded unrolling); 0: such loops are outside the fragment
 }
 
@@ -90,6 +92,13 @@ func (c *Ctx) rpfCall(fd *ast.FuncDecl, p *packages.Package, args []*Val, hooks 
 		for k, v := range hooks.env {
 			r.env[k] = v
 		}
+		if hooks.writeBack {
+			defer func() {
+				for k := range hooks.env {
+					hooks.env[k] = r.env[k]
+				}
+			}()
+		}
 	}
 	i := 0
 	if fd.Recv != nil {
@@ -121,6 +130,9 @@ func (c *Ctx) rpfCall(fd *ast.FuncDecl, p *packages.Package, args []*Val, hooks 
 		}
 	}
 	ret := r.block(fd.Body.List)
+	for i := len(r.deferred) - 1; i >= 0; i-- {
+		r.deferred[i]()
+	}
 	if ret == nil {
 		// fell off the end: named results
 		var out []*Val
@@ -547,6 +559,14 @@ func (r *rpf) stmt(s ast.Stmt) *rpfReturn {
 			}
 			return nil
 		}
+		if lst.K == VNil {
+			if t := info.TypeOf(x.X); t != nil {
+				switch t.Underlying().(type) {
+				case *types.Slice, *types.Map:
+					return nil // ranging over a nil slice or map: no iteration
+				}
+			}
+		}
 		if lst.K != VList || lst.MapKeys != nil {
 			rpfFail("%s: range over a non-literal value", r.c.pos(x.Pos()))
 		}
@@ -617,6 +637,34 @@ func (r *rpf) stmt(s ast.Stmt) *rpfReturn {
 				return nil
 			}
 		}
+		// a deferred method call of a module type on a struct value, for its effect on fold-local storage: receiver and
+		// arguments are folded now, the body when the function returns
+		if r.effectCalls {
+			if fn, isFn := r.dynCallee(x.Call, typeutil.Callee(info, x.Call)).(*types.Func); isFn {
+				if fd := r.c.funcDecl[fn]; fd != nil && fd.Recv != nil && fd.Body != nil {
+					if sel, ok := x.Call.Fun.(*ast.SelectorExpr); ok {
+						if base := r.expr(sel.X); base.K == VStruct {
+							var args []*Val
+							for _, a := range x.Call.Args {
+								args = append(args, r.expr(a))
+							}
+							dp := r.c.declPkg[fd]
+							r.deferred = append(r.deferred, func() {
+								hooks := r.nestedHooks()
+								if ro := recvObj(dp, fd); ro != nil {
+									hooks.env[ro] = base
+								}
+								if _, err := r.c.rpfCall(fd, dp, args, hooks); err != nil {
+									panic(err)
+								}
+								r.takeGlobals(hooks)
+							})
+							return nil
+						}
+					}
+				}
+			}
+		}
 		rpfFail("%s: defer outside the pure fragment", r.c.pos(x.Pos()))
 	case *ast.ExprStmt:
 		// an expression statement is an effect; it stays in the fragment only when the caller's hook
@@ -630,7 +678,7 @@ func (r *rpf) stmt(s ast.Stmt) *rpfReturn {
 		// a call of a repository function or method for its effect: folded like any other call; the only effects the
 		// fragment admits are stores into storage created inside the fold
 		if call, ok := x.X.(*ast.CallExpr); ok {
-			if fn, isFn := typeutil.Callee(info, call).(*types.Func); isFn && r.c.funcDecl[fn] != nil && r.c.funcDecl[fn].Body != nil && r.effectCalls {
+			if fn, isFn := r.dynCallee(call, typeutil.Callee(info, call)).(*types.Func); isFn && r.c.funcDecl[fn] != nil && r.c.funcDecl[fn].Body != nil && r.effectCalls {
 				r.callMulti(call)
 				return nil
 			}
@@ -639,6 +687,14 @@ func (r *rpf) stmt(s ast.Stmt) *rpfReturn {
 		if call, ok := x.X.(*ast.CallExpr); ok && len(call.Args) == 2 {
 			if b, isB := typeutil.Callee(info, call).(*types.Builtin); isB && b.Name() == "copy" {
 				dst, src := r.expr(call.Args[0]), r.expr(call.Args[1])
+				if src.K == VStr {
+					// copy(dst, "text"): the bytes of the string
+					bs := &Val{K: VList}
+					for i := 0; i < len(src.S); i++ {
+						bs.L = append(bs.L, vint(int64(src.S[i])))
+					}
+					src = bs
+				}
 				if dst.K == VList && src.K == VList && dst.Local {
 					for i := 0; i < len(dst.L) && i < len(src.L); i++ {
 						dst.L[i] = src.L[i]
@@ -769,6 +825,79 @@ func valEq(a, b *Val) bool {
 // rpfCurrent is the evaluator that is invoking a multi-value hook (hooks use it to fold the call's arguments).
 var rpfCurrent *rpf
 
+// nestedHooks builds the hooks of a method fold started from this fold: the same hooks, and the package variables the
+// caller of the outermost fold modelled (they are visible in every function).
+func (r *rpf) nestedHooks() *rpf {
+	h := &rpf{callHook: r.callHook, selHook: r.selHook, idxHook: r.idxHook, stHook: r.stHook, multiHook: r.multiHook, assertHook: r.assertHook, unroll: r.unroll, maxSteps: r.maxSteps, effectCalls: r.effectCalls, env: map[types.Object]*Val{}, writeBack: true}
+	for o, v := range r.env {
+		if o != nil && o.Pkg() != nil && o.Parent() == o.Pkg().Scope() {
+			h.env[o] = v
+		}
+	}
+	return h
+}
+
+// takeGlobals copies the modelled package variables back after a nested fold (it may have assigned them).
+func (r *rpf) takeGlobals(h *rpf) {
+	for o, v := range h.env {
+		if o != nil && o.Pkg() != nil && o.Parent() == o.Pkg().Scope() && v != nil {
+			r.env[o] = v
+		}
+	}
+}
+
+// dynCallee resolves what a call statically cannot: a method called through an interface on a struct value built
+// inside the fold (the value knows its type), and a function value held in a variable or field.
+func (r *rpf) dynCallee(call *ast.CallExpr, callee types.Object) types.Object {
+	info := r.p.TypesInfo
+	if fn, ok := callee.(*types.Func); ok {
+		if r.c.funcDecl[fn] != nil {
+			return callee
+		}
+		sig, _ := fn.Type().(*types.Signature)
+		if sig == nil || sig.Recv() == nil || !types.IsInterface(sig.Recv().Type()) {
+			return callee
+		}
+		sel, isSel := call.Fun.(*ast.SelectorExpr)
+		if !isSel {
+			return callee
+		}
+		base := r.expr(sel.X)
+		if base.K != VStruct || base.T == nil {
+			return callee
+		}
+		t := base.T
+		if _, isPtr := t.(*types.Pointer); !isPtr {
+			t = types.NewPointer(t)
+		}
+		if o, _, _ := types.LookupFieldOrMethod(t, true, fn.Pkg(), fn.Name()); o != nil {
+			if m, isM := o.(*types.Func); isM && r.c.funcDecl[m] != nil {
+				return m
+			}
+		}
+		return callee
+	}
+	if callee == nil || func() bool { _, isVar := callee.(*types.Var); return isVar }() {
+		if tv, ok := info.Types[call.Fun]; ok && !tv.IsType() {
+			if _, isSig := tv.Type.Underlying().(*types.Signature); isSig {
+				func() {
+					defer func() {
+						if x := recover(); x != nil {
+							if _, isErr := x.(*rpfErr); !isErr {
+								panic(x)
+							}
+						}
+					}()
+					if v := r.expr(call.Fun); v != nil && v.K == VFunc && v.Fn != nil {
+						callee = v.Fn
+					}
+				}()
+			}
+		}
+	}
+	return callee
+}
+
 func (r *rpf) callMulti(call *ast.CallExpr) []*Val {
 	callee := typeutil.Callee(r.p.TypesInfo, call)
 	if r.multiHook != nil {
@@ -777,6 +906,7 @@ func (r *rpf) callMulti(call *ast.CallExpr) []*Val {
 			return vals
 		}
 	}
+	callee = r.dynCallee(call, callee)
 	if fn, ok := callee.(*types.Func); ok {
 		if fd := r.c.funcDecl[fn]; fd != nil && fd.Recv == nil {
 			var args []*Val
@@ -799,11 +929,12 @@ func (r *rpf) callMulti(call *ast.CallExpr) []*Val {
 							args = append(args, r.expr(a))
 						}
 						dp := r.c.declPkg[fd]
-						hooks := &rpf{callHook: r.callHook, selHook: r.selHook, idxHook: r.idxHook, stHook: r.stHook, multiHook: r.multiHook, unroll: r.unroll, maxSteps: r.maxSteps, effectCalls: r.effectCalls, env: map[types.Object]*Val{}}
+						hooks := r.nestedHooks()
 						if ro := recvObj(dp, fd); ro != nil {
 							hooks.env[ro] = base
 						}
 						res, err := r.c.rpfCall(fd, dp, args, hooks)
+						r.takeGlobals(hooks)
 						if err != nil {
 							panic(err)
 						}
@@ -846,6 +977,9 @@ func (r *rpf) expr(e ast.Expr) *Val {
 		if x.Name == "nil" {
 			return &Val{K: VNil}
 		}
+		if fn, isFn := obj.(*types.Func); isFn && r.c.funcDecl[fn] != nil {
+			return &Val{K: VFunc, Fn: fn} // a declared function of the module used as a value
+		}
 		rpfFail("%s: free variable %s", r.c.pos(x.Pos()), x.Name)
 	case *ast.SelectorExpr:
 		if r.selHook != nil {
@@ -878,6 +1012,21 @@ func (r *rpf) expr(e ast.Expr) *Val {
 		}
 		base := r.expr(x.X)
 		idx := r.expr(x.Index)
+		// m[k] in value position on a nil map or on a map modelled as a struct of its entries: the entry or the zero value
+		if xt := info.TypeOf(x.X); xt != nil {
+			if _, isMap := xt.Underlying().(*types.Map); isMap && (base.K == VNil || (base.K == VStruct && base.Fields != nil)) && (idx.K == VInt || idx.K == VStr) {
+				ks := idx.S
+				if idx.K == VInt {
+					ks = fmt.Sprint(idx.I)
+				}
+				if base.K == VStruct {
+					if e, has := base.Fields[ks]; has {
+						return e
+					}
+				}
+				return zeroOf(info.TypeOf(x))
+			}
+		}
 		if base.K == VStr && idx.K == VInt {
 			if idx.I < 0 || idx.I >= int64(len(base.S)) {
 				rpfFail("%s: index %d out of range of constant string (len %d)", r.c.pos(x.Pos()), idx.I, len(base.S))
@@ -913,6 +1062,15 @@ func (r *rpf) expr(e ast.Expr) *Val {
 					v.Fields[kv.Key.(*ast.Ident).Name] = r.expr(kv.Value)
 				} else if i < st.NumFields() {
 					v.Fields[st.Field(i).Name()] = r.expr(el)
+				}
+			}
+			// fields the literal does not mention hold their zero value
+			for i := 0; i < st.NumFields(); i++ {
+				if _, ok := v.Fields[st.Field(i).Name()]; !ok {
+					switch st.Field(i).Type().Underlying().(type) {
+					case *types.Basic, *types.Slice, *types.Pointer, *types.Map:
+						v.Fields[st.Field(i).Name()] = zeroOf(st.Field(i).Type())
+					}
 				}
 			}
 			return v
@@ -970,6 +1128,14 @@ func (r *rpf) expr(e ast.Expr) *Val {
 		// x.(T) on a folded value: holds when the value has the basic kind asserted (a hint value given as a string)
 		if x.Type != nil {
 			v := r.expr(x.X)
+			if r.assertHook != nil {
+				if holds, claimed := r.assertHook(r, x, v); claimed {
+					if holds {
+						return v
+					}
+					rpfFail("%s: a single-value type assertion that does not hold: a run-time panic", r.c.pos(x.Pos()))
+				}
+			}
 			if bt, ok := info.TypeOf(x.Type).Underlying().(*types.Basic); ok {
 				switch {
 				case bt.Info()&types.IsString != 0 && v.K == VStr, bt.Info()&types.IsInteger != 0 && v.K == VInt, bt.Info()&types.IsBoolean != 0 && v.K == VBool:
@@ -1093,6 +1259,7 @@ func (r *rpf) expr(e ast.Expr) *Val {
 				return v
 			}
 		}
+		callee = r.dynCallee(x, callee)
 		// pure functions of the standard library and the min / max builtins on folded integers
 		if v, ok := r.stdPure(x, callee); ok {
 			return v
@@ -1100,6 +1267,8 @@ func (r *rpf) expr(e ast.Expr) *Val {
 		if b, ok := callee.(*types.Builtin); ok && b.Name() == "append" && len(x.Args) >= 1 {
 			base := r.expr(x.Args[0])
 			out := &Val{K: VList, T: info.TypeOf(x)}
+			// the fold always copies: the result is storage of its own when the base was (or was empty)
+			out.Local = base.K == VNil || (base.K == VList && (base.Local || len(base.L) == 0))
 			if base.K == VList {
 				out.L = append(out.L, base.L...)
 			} else if base.K != VNil {
@@ -1143,6 +1312,10 @@ func (r *rpf) expr(e ast.Expr) *Val {
 						out.L = append(out.L, e)
 						continue
 					}
+					if bt, isBasic := elem.Underlying().(*types.Basic); isBasic && bt.Info()&(types.IsBoolean|types.IsString) != 0 {
+						out.L = append(out.L, zeroOf(elem)) // false / ""
+						continue
+					}
 					out.L = append(out.L, vint(0))
 				}
 				return out
@@ -1155,6 +1328,14 @@ func (r *rpf) expr(e ast.Expr) *Val {
 			}
 			if v.K == VStr {
 				return vint(int64(len(v.S)))
+			}
+			if v.K == VNil {
+				if t := info.TypeOf(x.Args[0]); t != nil {
+					switch t.Underlying().(type) {
+					case *types.Slice, *types.Map:
+						return vint(0) // a nil slice or map is empty
+					}
+				}
 			}
 		}
 		// trivial field getters on literal struct values
@@ -1183,11 +1364,12 @@ func (r *rpf) expr(e ast.Expr) *Val {
 							}
 							dp := r.c.declPkg[fd]
 							ro := recvObj(dp, fd)
-							hooks := &rpf{callHook: r.callHook, selHook: r.selHook, idxHook: r.idxHook, stHook: r.stHook, multiHook: r.multiHook, unroll: r.unroll, maxSteps: r.maxSteps, effectCalls: r.effectCalls, env: map[types.Object]*Val{}}
+							hooks := r.nestedHooks()
 							if ro != nil {
 								hooks.env[ro] = base
 							}
 							res, err := r.c.rpfCall(fd, dp, args, hooks)
+							r.takeGlobals(hooks)
 							if err != nil {
 								panic(err)
 							}
